@@ -59,19 +59,20 @@ def matchQuality (row : RowF) (symbol : String) (nn : Nat) (angle : Float) (nAro
 def argmaxLast (qs : Array Float) : Nat :=
   (List.range qs.size).foldl (fun best i => if i = 0 then 0 else if qs[best]! > qs[i]! then best else i) 0
 
-/-- Formal charge as `set_formal_charges` computes it for molecular charge 0. -/
-def formalCharge (z : Nat) (a : Nat) (bs : List Bond) : Float :=
+/-- Formal charge as `set_formal_charges` computes it for molecular charge 0, from the atom's view (the subtraction of
+bond orders one by one is exact in doubles: all values are small multiples of 1/2). -/
+def formalCharge (z : Nat) (v : AtomView) : Float :=
   let g := group z
   let ve : Float := (if g = 13 then 3 else if g = 14 then 4 else if g = 15 then 5 else if g = 16 then 6 else if g = 17 then 7 else g).toFloat
-  let n := (bs.filter (·.contains a)).foldl (fun acc b => acc - b.order.twice.toFloat / 2.0) ve
+  let n := ve - v.orderSumTwice.toFloat / 2.0
   let rec red (n : Float) : Nat → Float
     | 0 => n
     | k + 1 => if n > 2.0 then red (n - 2.0) k else n
   red n 64
 
 /-- `Atom::is_d8`. -/
-def isD8 (z a : Nat) (bs : List Bond) : Bool :=
-  isTransitionMetal z && (((group z).toFloat - formalCharge z a bs) - 8.0).abs ≤ 1e-8
+def isD8 (z : Nat) (v : AtomView) : Bool :=
+  isTransitionMetal z && (((group z).toFloat - formalCharge z v) - 8.0).abs ≤ 1e-8
 
 structure Typing where
   row : Array Nat
@@ -82,13 +83,12 @@ def assignTypes (zs : Array Nat) (xs : Array P3) (bs : List Bond) : Typing :=
   let per := (List.range zs.size).map fun a =>
     let z := zs[a]!
     let sym := strOf (toSymbol z)
-    let nb := ((neighbours bs a).toArray.qsort (· < ·)).toList
-    let nn := nb.length
-    let angle := if nn > 1 then angleValueF xs (nb.getD 0 0) a (nb.getD 1 0) else 0.0
-    let nArom := (bs.filter fun b => b.contains a && b.order == .aromatic).length
-    let qs := rowsF.map fun row => matchQuality row sym nn angle nArom
+    let v := atomView bs a
+    let nn := v.nbrs.length
+    let angle := if nn > 1 then angleValueF xs (v.nbrs.getD 0 0) a (v.nbrs.getD 1 0) else 0.0
+    let qs := rowsF.map fun row => matchQuality row sym nn angle v.nAromatic
     let best := argmaxLast qs
-    let env := coordinationEnvironment nn (group z) (isD8 z a bs) (sym = "Xe")
+    let env := coordinationEnvironment nn (group z) (isD8 z v) (sym = "Xe")
     (best, env)
   { row := (per.map (·.1)).toArray, env := (per.map (·.2)).toArray }
 
